@@ -28,6 +28,7 @@ RULE = (
     "Oracle: the call returns, or raises a bec2format FormatError subclass or a ValueError subclass; anything else is bucketed by (exception type, repo module, function of the "
     "innermost repository frame) and reported per bucket; after every call the crypto registry, AUTH_BLOCK_CLS_MAP, the module-/class-level tables and the mutable default-argument values of all library functions are compared with a snapshot; a "
     "SIGALRM watchdog (10 s, inputs <= 64 KiB) re-runs a slow input in a fresh process (60 s) before calling it a hang. "
+    "Deep malformations: header edit 'reframe' gives a customer-key / update block a WELL-FORMED frame under its own key (marker, length byte, padding, CRC right) around content of any length 0..60, read with the correct decryptors - the error sits behind a decryption that succeeds. "
     "Non-trivial = the input reaches beyond the text/hex front end (signature intact per the model, or a BF2 text with >= 1 data line); distinct by (target, input hash); "
     "for the atheris part: the number of coverage-distinct corpus entries libFuzzer kept."
 )
@@ -36,7 +37,7 @@ ASSUMPTIONS = [
     "a watchdog expiry alone is 'inconclusive', never a violation",
 ]
 REQUIRED_CLASSES = ["target=bf3", "target=bec2", "target=bf2", "target=cfgid", "target=pfid2", "outcome=return", "outcome=format-error", "outcome=value-error",
-                    "dec=none", "dec=public-only", "dec=private", "dec=wrong-key", "dec=correct", "mut=field-edit-remac", "mut=header-tlv", "mut=bf2-instr", "beyond-frontend", "route=path"]
+                    "dec=none", "dec=public-only", "dec=private", "dec=wrong-key", "dec=correct", "mut=field-edit-remac", "mut=header-tlv", "mut=bf2-instr", "beyond-frontend", "route=path", "mut=well-formed-frame-around-malformed-content.opened"]
 
 from bec2format.error import FormatError  # noqa: E402
 
@@ -382,6 +383,14 @@ def build_input(case):
                         blocks.insert(i, [h[2], h[3]])
                     elif h[0] == "dupl":
                         blocks.insert(i, list(blocks[i]))
+                    elif h[0] == "reframe":
+                        # DEEP: the block keeps a well-formed frame under ITS OWN key (marker, length byte, padding, CRC all right) - only the
+                        # protected content is malformed (any length 0..60): the error sits behind a decryption that succeeds
+                        spec = b["blocks"][i] if i < len(b["blocks"]) else None
+                        if spec is not None and blocks[i][0] == {"cust": 1, "upd": 2}.get(spec["kind"]):
+                            k_ = spec["crypto_key"] if spec["kind"] == "cust" else M.code_key(spec["code"])
+                            blocks[i][1] = M.container_wrap(k_, h[2])
+                            info["deep"] = True
                     elif h[0] == "flip" and blocks[i][1]:
                         v = bytearray(blocks[i][1])
                         v[h[2] % len(v)] ^= 1 << (h[3] % 8)
@@ -435,6 +444,8 @@ def check(case, rec):
         rec.cls("mut=field-edit-remac")
     if case.get("hdr"):
         rec.cls("mut=header-tlv")
+    if info.get("deep") and t == "bec2" and case.get("dec") == "correct":
+        rec.cls("mut=well-formed-frame-around-malformed-content.opened")
     if case.get("instr"):
         rec.cls("mut=bf2-instr")
     for m in case.get("muts", []):
@@ -529,6 +540,7 @@ def strat_files(tier):
         st.tuples(st.just("empty"), st.integers(0, 3)), st.tuples(st.just("cut"), st.integers(0, 3), st.integers(0, 100)),
         st.tuples(st.just("tag"), st.integers(0, 3), st.sampled_from([0, 1, 2, 3, 4, 0x7F, 0xFF])), st.tuples(st.just("sel"), st.integers(0, 3), st.integers(0, 255)),
         st.tuples(st.just("add"), st.integers(0, 3), st.sampled_from([1, 2, 3, 9]), st.binary(max_size=40)), st.tuples(st.just("dupl"), st.integers(0, 3)),
+        st.tuples(st.just("reframe"), st.integers(0, 3), st.one_of(st.binary(max_size=60), st.builds(bytes, st.integers(0, 40)), st.sampled_from([b"", bytes(16), bytes(17), bytes(25), bytes(26), bytes(27)]))),
         st.tuples(st.just("flip"), st.integers(0, 3), st.integers(0, 200), st.integers(0, 7))), max_size=2)
     bec2 = st.fixed_dictionaries(dict(target=st.just("bec2"),
                                       base=st.fixed_dictionaries(dict(comments=S.comment_list(1), comps=_comps(48), key=S.session_key(allow_default=False), blocks=S.auth_blocks())),
